@@ -270,11 +270,14 @@ class C06Mon(episodes.Monitor):
 
 @st.composite
 def fill_plans(draw, max_len=80):
-    order = draw(st.sampled_from(["first", "last", "random", "random", "solve"]))
+    order = draw(st.sampled_from(["first", "last", "random", "random", "solve", "crowd"]))
     n = draw(st.integers(2, max_len))
     if order == "solve":
         rs = draw(st.lists(st.integers(0, 2**20), min_size=n, max_size=n))
         return {"style": "fill_solve", "steps": [("solve", r) for r in rs]}
+    if order == "crowd":
+        rs = draw(st.lists(st.integers(0, 2**20), min_size=n, max_size=n))
+        return {"style": "fill_crowd", "steps": [("crowd" if i % 3 else "legal", r) for i, r in enumerate(rs)]}
     if order == "first":
         rs = [0] * n
     elif order == "last":
